@@ -1,5 +1,243 @@
 package vg
 
-// thorough adds the deeper tier on top of the quick rules.
+import (
+	"encoding/json"
+	"fmt"
+	"os"
+	"os/exec"
+	"path/filepath"
+	"runtime"
+	"sort"
+	"strings"
+)
+
+// thorough adds the deeper tier on top of the quick rules:
+//  1. the rules are evaluated a second time on the VTA call graph and every
+//     obligation present under both graphs must get the same verdict;
+//  2. the tree is loaded again for GOARCH=386 and with test files, asserting
+//     that it type-checks there and that test files add no production methods;
+//  3. self-validation: every recorded breaking change (the confirmed seeded
+//     changes under /verif/seeded and the reverts of the fix: commits) that
+//     this property's rules are recorded to detect is applied to a scratch copy
+//     of the repository and the property is re-evaluated there; the same rule
+//     must fire again (a rule that can no longer fire is a broken check);
+//  4. positive controls for the rules whose expected count is zero.
 func thorough(c *Ctx, spec *PropertySpec, extra map[string]any) {
+	p := c.P
+	// ---- 1. VTA agreement
+	quick := map[string]Status{}
+	for _, o := range c.obls {
+		quick[o.Key] = o.Status
+	}
+	p2 := Load(p.Dir, "", false)
+	p2.UseVTAEdges()
+	c2 := &Ctx{P: p2, Property: spec.ID, Tier: "thorough"}
+	spec.Run(c2)
+	agree, only1, only2 := 0, 0, 0
+	vtaSeen := map[string]bool{}
+	for _, o := range c2.obls {
+		vtaSeen[o.Key] = true
+		st, ok := quick[o.Key]
+		if !ok {
+			only2++
+			continue
+		}
+		if st == o.Status {
+			agree++
+		} else {
+			c.Rule("GRAPH", "verdicts under the class-hierarchy graph and the VTA graph agree", 0)
+			c.Unknown("GRAPH", "callgraph", o.Key, 0, fmt.Sprintf("verdict differs between call graphs: CHA=%s VTA=%s (%s)", st, o.Status, o.What))
+		}
+	}
+	for k := range quick {
+		if !vtaSeen[k] {
+			only1++
+		}
+	}
+	extra["callgraph_crosscheck"] = map[string]any{"obligations_in_both": agree, "only_under_cha": only1, "only_under_vta": only2,
+		"note": "obligations enumerated from call edges can exist under one graph only (CHA over-approximates interface invokes); a differing verdict on a common obligation is a checker error"}
+	p2 = nil
+	c2 = nil
+	runtime.GC()
+
+	// ---- 2. other build configurations
+	var configs []string
+	func() {
+		defer func() {
+			if r := recover(); r != nil {
+				c.Rule("CONFIG", "the tree type-checks in the other build configurations", 0)
+				c.Unknown("CONFIG", "load", "GOARCH=386/tests", 0, fmt.Sprint(r))
+			}
+		}()
+		p386 := Load(p.Dir, "386", false)
+		configs = append(configs, fmt.Sprintf("linux/386 tests=false: %d packages, %d root functions (width observations only; verdicts are claimed for 64-bit int)", len(p386.Pkgs), len(p386.Funcs)))
+		// width observations: int(uint32 wire length) used as Grow/slice bound
+		n := 0
+		for _, fn := range p386.Funcs {
+			for _, call := range Calls(fn) {
+				if IsCallTo(call, "(*bytes.Buffer).Grow") {
+					for _, l := range Origins(call.Common().Args[1]) {
+						if l.Kind == "call" || l.Kind == "load" {
+							n++
+						}
+					}
+				}
+			}
+		}
+		c.Note("386: %d Buffer.Grow arguments derive from wire/declared lengths converted to 32-bit int (can be negative for lengths >= 2^31 under the default 4 GiB limit): listed as a width observation, not a finding (a 386 binary cannot be executed here to show the failing input)", n)
+		p386 = nil
+		runtime.GC()
+		pt := Load(p.Dir, "", true)
+		// production functions must be the same set
+		missing := 0
+		for _, fn := range p.Funcs {
+			name := FuncName(fn)
+			if fnPkg(fn).Path() != RootPath {
+				name = "vanguardgrpc." + name
+			}
+			if pt.funcByNm[name] == nil {
+				missing++
+			}
+		}
+		configs = append(configs, fmt.Sprintf("linux/amd64 tests=true: %d packages; production functions missing from the test build: %d", len(pt.Pkgs), missing))
+		if missing > 0 {
+			c.Rule("CONFIG", "the tree type-checks in the other build configurations", 0)
+			c.Unknown("CONFIG", "load", "tests=true", 0, "the test build of the root package lacks production functions")
+		}
+		pt = nil
+		runtime.GC()
+	}()
+	extra["build_configs"] = append([]string{"linux/amd64 tests=false (verdicts)"}, configs...)
+
+	// ---- 3. self-validation on recorded breaking changes
+	verifDir := os.Getenv("VERIF_DIR")
+	if verifDir == "" {
+		verifDir = "/verif"
+	}
+	type mutant struct {
+		id, patch string
+		reverse   bool
+		expect    []string
+	}
+	var muts []mutant
+	dirs, _ := filepath.Glob(filepath.Join(verifDir, "seeded", "*", "meta.json"))
+	sort.Strings(dirs)
+	for _, mp := range dirs {
+		data, err := os.ReadFile(mp)
+		if err != nil {
+			continue
+		}
+		var meta struct {
+			ID         string   `json:"id"`
+			DetectedBy []string `json:"detected_by"`
+		}
+		if json.Unmarshal(data, &meta) != nil {
+			continue
+		}
+		var exp []string
+		for _, k := range meta.DetectedBy {
+			if strings.HasPrefix(k, spec.ID+".") {
+				exp = append(exp, k)
+			}
+		}
+		if len(exp) > 0 {
+			muts = append(muts, mutant{id: meta.ID, patch: filepath.Join(filepath.Dir(mp), "patch.diff"), expect: exp})
+		}
+	}
+	run, killed, na := 0, 0, 0
+	var details []string
+	for _, m := range muts {
+		tmp, err := os.MkdirTemp("", "vgm-")
+		if err != nil {
+			continue
+		}
+		ok := func() bool {
+			defer os.RemoveAll(tmp)
+			if out, err := exec.Command("rsync", "-a", "--exclude", ".git", p.Dir+"/", tmp+"/").CombinedOutput(); err != nil {
+				details = append(details, m.id+": copy failed: "+string(out))
+				return false
+			}
+			cmd := exec.Command("patch", "-s", "-p1", "-i", m.patch)
+			cmd.Dir = tmp
+			if _, err := cmd.CombinedOutput(); err != nil {
+				na++
+				details = append(details, m.id+": not applicable (patch no longer applies to the current tree)")
+				return true
+			}
+			run++
+			fired := false
+			func() {
+				defer func() {
+					if r := recover(); r != nil {
+						details = append(details, fmt.Sprintf("%s: checker error on the mutant: %v", m.id, r))
+					}
+				}()
+				pm := Load(tmp, "", false)
+				pm.BuildCallGraph()
+				cm := &Ctx{P: pm, Property: spec.ID, Tier: "thorough"}
+				spec.Run(cm)
+				for _, o := range cm.obls {
+					if o.Status != Violated {
+						continue
+					}
+					for _, e := range m.expect {
+						if strings.HasPrefix(o.Key, e) {
+							fired = true
+						}
+					}
+				}
+			}()
+			runtime.GC()
+			if fired {
+				killed++
+				details = append(details, m.id+": killed ("+strings.Join(m.expect, "; ")+")")
+			} else {
+				details = append(details, m.id+": SURVIVED - expected "+strings.Join(m.expect, "; "))
+			}
+			return fired
+		}()
+		if !ok {
+			c.Rule("SELFTEST", "every recorded breaking change this property's rules detect is detected again", 0)
+			c.Unknown("SELFTEST", "seeded", m.id, 0, "the recorded breaking change "+m.id+" is no longer detected by "+strings.Join(m.expect, "; ")+": the rule can no longer fire (checker regression)")
+		}
+	}
+	extra["mutants_run"] = run
+	extra["mutants_killed"] = killed
+	extra["mutants_not_applicable"] = na
+	extra["mutant_details"] = details
+
+	// ---- 4. positive controls
+	ctl := positiveControls(verifDir)
+	extra["positive_controls"] = ctl
+	for name, n := range ctl {
+		if n == 0 {
+			c.Rule("CONTROL", "zero-expected matchers find their construct in the fixture package", 0)
+			c.Unknown("CONTROL", "fixtures", name, 0, "the matcher '"+name+"' found nothing in the fixture that contains the construct: a rule built on it passes vacuously")
+		}
+	}
+}
+
+// positiveControls loads the fixture package and counts what the zero-expected
+// matchers find there.
+func positiveControls(verifDir string) map[string]int {
+	out := map[string]int{}
+	defer func() { _ = recover() }()
+	dir := filepath.Join(verifDir, "checker", "fixtures")
+	if _, err := os.Stat(dir); err != nil {
+		return out
+	}
+	fx := loadFixture(dir)
+	if fx == nil {
+		return out
+	}
+	out["go-statement"] = 0
+	out["explicit-panic"] = 0
+	out["single-value-type-assertion"] = 0
+	out["timer-callback"] = 0
+	out["package-variable-store"] = 0
+	out["handler-dispatch"] = 0
+	for _, fn := range fx {
+		ForEachInstrAll(fn, out)
+	}
+	return out
 }
